@@ -140,11 +140,12 @@ def specRun (a : AState) : List Call → AState
   | c :: cs => specRun (specStep a c).st cs
 
 
-/-- The one place where the number of processes matters: a *collective varn* call whose argument
-    tests fail still joins the collective wait with a null request id, and `extract_reqs` then
-    completes the caller's single pending request (defect F4 of property C02 seen from here). -/
-def flushQuirk (cfg : Cfg) (s : State) : Call → Bool
-  | .rw _ true _ _ _ true => cfg.multi && (s.nGet == 0 && s.nPut == 1 || s.nPut == 0 && s.nGet == 1)
+/-- Formerly the one place where the number of processes mattered: a *collective varn* call whose argument
+    tests fail still joins the collective wait with a null request id, and `extract_reqs` used to
+    complete the caller's single pending request (defect F4 of property C02 seen from here).  Repaired in
+    /repo commit 12532099; the predicate is kept (constantly false) so that the statements below read
+    the same on both sides of the repair. -/
+def flushQuirk (_cfg : Cfg) (_s : State) : Call → Bool
   | _ => false
 
 
